@@ -315,7 +315,7 @@ func runC10(w *core.W) {
 	w.ExhaustivePart("every pair of 24 wrapping constructs around 15 inner expressions (names, paths, calls, member access on non-paths)")
 	// 4. repeated mentions: names and paths that differ only in letter case, in a prefix, or not at all, in every order
 	// (the reported fields are the DISTINCT reads: each exactly once, whatever the order of mention)
-	names := []string{"a", "A", "a.b", "A.b", "a.B", "$l", "$L", "aa", "Aa", "a.b.c", "ab"}
+	names := []string{"a", "A", "a.b", "A.b", "a.B", "$l", "$L", "aa", "Aa", "a.b.c", "ab", longKeyA, longKeyB, "m." + longKeyA}
 	for _, x := range names {
 		for _, y := range names {
 			for _, z := range names {
